@@ -119,9 +119,6 @@ package sio
 //@   ensures[C15] others: forall k string :: k != mid ==> ((k in c.Machines) <==> old(k in c.Machines)) && c.Machines[k] == old(c.Machines[k])
 //@   ensures wfChanged(c)
 
-//@ extern encoding/json.Marshal(v) returns (b, err)
-//@   modifies nothing
-
 // GetChanged: the pending change set is drained; the captain is never reported;
 // a deleted machine is reported as exactly {Deleted}.
 //@ func (*Crew).GetChanged returns changed, err
